@@ -74,6 +74,12 @@ let faults_of (r : runres) = List.map (fun (k, e) -> (i k, int_of_pos e)) r.r_la
 let walk (r : runres) (f : (int, hinfo) Hashtbl.t -> int -> step -> event list -> unit) : (int, hinfo) Hashtbl.t =
   let tbl : (int, hinfo) Hashtbl.t = Hashtbl.create 8 in
   let main = main_of r in
+  (* an op that never returned (hang / crash) is visited as a final pseudo-step with result RSkip *)
+  let steps = match r.r_pending with
+    | Some o ->
+      let last_w = (match List.rev r.r_steps with st :: _ -> st.s_after | [] -> r.r_last) in
+      r.r_steps @ [ { s_op = o; s_res = RSkip; s_before = last_w; s_after = r.r_last } ]
+    | None -> r.r_steps in
   List.iteri (fun idx st ->
       let evs = step_events st in
       f tbl idx st evs;
@@ -109,7 +115,7 @@ let walk (r : runres) (f : (int, hinfo) Hashtbl.t -> int -> step -> event list -
             List.iteri (fun k (((_, s), n), _) -> if k >= 2 && i n = 0 && (i s = 1 || i s = 2) then hi.epiped.(i s) <- true) calls
           | _ -> ())
        | OS (SDestroy h), RUnit -> Hashtbl.remove tbl (i h)
-       | _ -> ())) r.r_steps;
+       | _ -> ())) steps;
   tbl
 
 (* pipe id behind descriptor [fd] of the child's exec image *)
@@ -203,6 +209,17 @@ let mon_c01 (r : runres) =
                  | None -> ())
               end
             | _ -> ());
+           (* liveness: a child that has ended is reported — no hang, no time-out *)
+           (match st.s_op, st.s_res with
+            | (OS (SWait _) | OS (SStop _)), (RSkip | RInt _) when hi.status = None && ended st.s_before c
+                                                                  && h_exit_ok (match hi.start_after with Some w -> w | None -> st.s_before) c
+                                                                  && not (List.exists (fun e -> injected_failure r e) evs) ->
+              let in_range_stop = (match st.s_op with OS (SStop (_, a)) -> List.for_all (fun (x, _) -> x >= 1 && x <= 3) (norm_stop a) | _ -> true) in
+              (match st.s_res with
+               | RSkip when r.r_final = FHang -> fail "C01/hang-though-exited" (Printf.sprintf "wait/stop blocks for ever although child %d has ended" c)
+               | RInt rr when i rr = etimedout && in_range_stop -> fail "C01/timeout-though-exited" (Printf.sprintf "wait/stop timed out although child %d had ended before the call" c)
+               | _ -> ())
+            | _ -> ());
            (match hi.status, st.s_op with
             | Some _, (OS (STerminate _) | OS (SKill _) | OS (SDestroy _)) ->
               if List.exists (fun e -> by main e && is_call CWaitpid e) evs then
@@ -295,9 +312,6 @@ let mon_c05 (r : runres) (sc : scenario) =
       (match st.s_op, st.s_res with
        | OStart _, RInt rr when i rr < 0 -> must_reap := forked_children main evs @ !must_reap
        | _ -> ())) in
-  (* events of an op that never returned *)
-  let last_w = match List.rev r.r_steps with st :: _ -> st.s_after | [] -> sc.sc_world in
-  List.iter one_event (events_between last_w r.r_last);
   Hashtbl.iter (fun _ hi -> if hi.status <> None && hi.child > 0 then must_reap := hi.child :: !must_reap) tbl;
   if r.r_final = FDone then begin
     if not !reap_failed then
@@ -376,7 +390,8 @@ let mon_c04 (r : runres) (sc : scenario) =
                | None ->
                  let cause =
                    if List.exists (fun e -> i e.e_pid = c && is_call CWrite e && ret e = -1) evs then "/error-report-write-failed"
-                   else if List.exists (fun e -> by main e && is_call CRead e && ret e = -1) evs then "/error-pipe-read-failed"
+                   else if List.exists (fun e -> by main e && is_call CRead e && ret e = -1 && i e.e_errno <> 4) evs then "/error-pipe-read-failed"
+                   else if List.exists (fun e -> by main e && is_call CRead e && ret e = -1) evs then "/error-pipe-read-interrupted"
                    else "" in
                  fail ("C04/success-without-child/not-exec'd" ^ cause) (Printf.sprintf "start succeeded but child %d never executed a program" c)
                | Some im ->
@@ -485,7 +500,10 @@ let mon_c10 (r : runres) =
                 | _ -> None in
               let std_alias = List.exists (fun (s, rd) -> match target_fd s rd with Some fd -> fd >= 0 && fd <= 2 && fd <> s | None -> false)
                   [ (0, eff.o_in); (1, eff.o_out); (2, eff.o_err) ] in
-              let cause = if std_closed then "parent-std-closed" else if std_alias then "std-handle-alias" else "" in
+              (* D21 (open finding): a std descriptor of the parent is closed AND some stream resolves to PARENT *)
+              let parent_redirect = List.exists (fun (rd : redirect) -> i rd.rd_type = 2) [ eff.o_in; eff.o_out; eff.o_err ] in
+              let cause = if std_closed && parent_redirect then "parent-std-closed-then-parent-redirect"
+                else if std_closed then "parent-std-closed" else if std_alias then "std-handle-alias" else "" in
               List.iter (fun (s, (rd : redirect)) ->
                   let ty = i rd.rd_type in
                   let bad sub what = fail (if cause <> "" then "C10/stream-target/" ^ cause else Printf.sprintf "C10/stream-target/%d/%d/%s" s ty sub) what in
@@ -494,7 +512,7 @@ let mon_c10 (r : runres) =
                   let same_as_parent_fd fd sub =
                     match List.assoc_opt fd pfds with
                     | Some d -> if got <> Some d.f_obj then bad sub (Printf.sprintf "child stream %d is %s, expected the object of parent descriptor %d (%s)" s gots fd (Show.obj d.f_obj))
-                    | None -> bad (sub ^ "-closed") (Printf.sprintf "child stream %d is %s; parent descriptor %d is not open" s gots fd) in
+                    | None -> ignore sub (* the caller passed a descriptor that is not open: outside the property *) in
                   match ty with
                   | 1 ->
                     (match got with
@@ -609,11 +627,21 @@ let mon_c07 (r : runres) =
              fail "C07/result/status-without-reap" (Printf.sprintf "stop returned %d but the child has not been reaped" rr);
            if rr < 0 && was_reaped && hi.status = None && reaped st.s_before c = false then
              fail "C07/result/error-though-reaped" (Printf.sprintf "stop reaped the child but returned %d" rr);
-           let any_fail = List.exists (fun e -> by main e && ret e = -1 && not (is_call CGetfd e)) evs in
+           let any_fail = List.exists (fun e -> by main e && ((ret e = -1 && not (is_call CGetfd e)) || injected_failure r e)) evs in
            if in_range && not any_fail && not was_reaped && rr <> etimedout then
              fail "C07/result/timeout-expected" (Printf.sprintf "every wait expired, child not reaped, stop returned %d" rr);
            if not in_range && rr >= 0 && hi.status = None && not was_reaped then
              fail "C07/result/error-expected" (Printf.sprintf "out-of-range action, stop returned %d" rr);
+           (* the whole sequence never blocks longer than the sum of its (finite) time-outs *)
+           (let tms = List.map snd acts_n in
+            let resolve t = if t = -2 then (match hi.deadline_abs with Some d -> Some (max 0 (d - i st.s_before.w_time)) | None -> None)
+              else if t < 0 then None else Some t in
+            let rs = List.map resolve tms in
+            if in_range && List.for_all (fun x -> x <> None) rs then begin
+              let total = sum (List.map (function Some x -> x | None -> 0) rs) in
+              let polled = sum (List.filter_map (fun e -> if by main e && is_call CPoll e then Some (i e.e_blocked) else None) evs) in
+              if polled > total then fail "C07/overrun/blocked-time" (Printf.sprintf "stop with time-outs summing to %d ms spent %d ms blocked in poll" total polled)
+            end);
            (* each OS-level wait is bounded by its action's time-out *)
            List.iter (fun e -> if by main e && is_call CPoll e && arg 0 e >= 0 && i e.e_blocked > arg 0 e then
                          fail "C07/overrun" (Printf.sprintf "poll with time-out %d blocked %d ms" (arg 0 e) (i e.e_blocked))) evs;
@@ -639,7 +667,22 @@ let mon_c07 (r : runres) =
       | _ -> ()))
 
 (* C08: deadlines and time-outs bound waits and polls *)
+let mon_c08_blocked (r : runres) =
+  let main = main_of r in
+  ignore (walk r (fun tbl _ st evs ->
+      let polled = sum (List.filter_map (fun e -> if by main e && is_call CPoll e then Some (i e.e_blocked) else None) evs) in
+      match st.s_op with
+      | OS (SWait (h, t)) ->
+        (match Hashtbl.find_opt tbl (i h) with
+         | Some hi when hi.started && hi.status = None && i t >= 0 ->
+           if polled > i t then fail "C08/wait-overrun/blocked-time" (Printf.sprintf "wait(%d) spent %d ms blocked in poll" (i t) polled)
+         | _ -> ())
+      | OS (SPoll (_, t)) when i t >= 0 ->
+        if polled > i t then fail "C08/poll-overrun/blocked-time" (Printf.sprintf "poll(%d) spent %d ms blocked in the OS poll" (i t) polled)
+      | _ -> ()))
+
 let mon_c08 (r : runres) =
+  mon_c08_blocked r;
   if no_latency r then
     ignore (walk r (fun tbl _ st _evs ->
         let t0 = i st.s_before.w_time and t1 = i st.s_after.w_time in
@@ -841,6 +884,14 @@ let mon_c02 (r : runres) =
          | Some hi when hi.started && not hi.fork_mode ->
            List.iteri (fun k (((_, _), n), rs) -> if k >= 2 && i n > 0 then check_runs (i h) "C02/out" rs) calls
          | _ -> ())
+      | OS (SWrite (h, true, _)), RInt rr ->
+        (match Hashtbl.find_opt tbl (i h) with
+         | Some hi when hi.started && not hi.fork_mode ->
+           (* bytes that entered the pipe during this call = the count the call reported *)
+           let put = sum (List.filter_map (fun e -> if by main e && is_call CWrite e && ret e > 0 then Some (ret e) else None) _evs) in
+           if put <> max 0 (i rr) then
+             fail "C02/in-accepted-mismatch" (Printf.sprintf "write put %d bytes into the child's stdin but returned %d" put (i rr))
+         | _ -> ())
       | _ -> ()) in
   (* stdin as seen by each child: start-up input then accepted writes, in order, no gaps *)
   Hashtbl.iter (fun h hi ->
@@ -979,10 +1030,11 @@ let mon_c15 (r : runres) (flags : string list) =
       | OS (SDestroy h) ->
         (match Hashtbl.find_opt tbl (i h) with
          | Some hi ->
-           check_destroy hi st.s_before st.s_after evs true;
+           let returned = st.s_res <> RSkip in
+           check_destroy hi st.s_before st.s_after evs returned;
            (* everything the handle owned is released *)
            (match hi.start_after with
-            | Some ws when hi.started && hi.child > 0 && not hi.fork_mode ->
+            | Some ws when returned && hi.started && hi.child > 0 && not hi.fork_mode ->
               List.iter (fun s -> match parent_end ws st.s_after main hi.child s with
                   | Some fd -> fail (Printf.sprintf "C15/residue-after-destroy/stream%d" s) (Printf.sprintf "descriptor %d still open after destroy" fd)
                   | None -> ()) [ 0; 1; 2 ];
@@ -998,7 +1050,6 @@ let mon_c15 (r : runres) (flags : string list) =
      (match Hashtbl.find_opt tbl (i h) with
       | Some hi ->
         let w0 = (match List.rev r.r_steps with st :: _ -> st.s_after | [] -> r.r_last) in
-        check_destroy hi w0 r.r_last (events_between w0 r.r_last) false;
         if hi.child > 0 && ended r.r_last hi.child && h_exit_ok (match hi.start_after with Some w -> w | None -> w0) hi.child then
           fail "C15/hang-though-exited" "destroy blocks for ever although the child has exited"
       | None -> ())
